@@ -136,9 +136,9 @@ Definition op_table : list (string * kind) :=
                                                the whole amplitude vector back *)
     ("wf_setitem_seq", MutatorAtomic 0);    (* wf[int] = [v, ...]: on a sympy-backed wavefunction the list spills over the
                                                following entries; rejected assignments are rolled back (finding F29, fixed) *)
-    ("wf_setitem_symseq", Mutator 0);       (* wf[a:b] = [number, symbol] on a numpy-backed wavefunction: numpy raises after
-                                               storing the leading numbers, outside the roll-back (finding F27 of C12,
-                                               known) - the model records what the code does: not atomic *)
+    ("wf_setitem_symseq", MutatorAtomic 0); (* wf[a:b] = [number, symbol] on a numpy-backed wavefunction: numpy raises after
+                                               storing the leading numbers; the write itself is now rolled back on any
+                                               exception (finding F37, fixed) *)
     ("meas_add_counts", Mutator 0);        (* Measurements.add_counts extends the stored list *)
     ("ev_to_real", Mutator 0);              (* expectation_values_to_real rewrites and returns its argument *)
     ("dict_normalize", Mutator 0) ].        (* normalize_measurement_outcome_distribution rescales the dict it is given *)
